@@ -545,3 +545,8 @@ def run(ctx):
     from .. import errdisc
     errdisc.check(ctx, 'C12.RD', 'C12', 9)
     boundaries.check_guards(ctx, 'C12.RG', 'C12')
+    from .. import tables
+    r11 = ctx.rule('C12.R11', 'TABLE', 'flag predicates, setters and loaders of DATA / HEADERS / PUSH_PROMISE / SETTINGS agree with the RFC 9113 flag bits on all 256 flag octets (exhaustive)')
+    tables.flag_predicates(r11, ctx.facts)
+    from .. import boundaries as _b
+    _b.check_predicates(ctx, 'C12.RP', 'C12')
